@@ -28,7 +28,8 @@ for d in sorted(glob.glob(f"{root}/seeded/*/")):
         elif exits[-1] != 1: hist.append(f"{chk}: NOT reported (yet)")
     confirm = None
     if os.path.exists(d + "confirm.log"):
-        m = re.search(r"VERDICT (.*)", open(d + "confirm.log").read()); confirm = m.group(1) if m else None
+        txt = open(d + "confirm.log").read()
+        m = re.search(r"CONFIRMED (.*)", txt) or re.search(r"VERDICT (.*)", txt); confirm = (("CONFIRMED " if "CONFIRMED" in m.group(0) else "") + m.group(1)) if m else None
     history = old.get("history") if old.get("history") and not old.get("auto") else "; ".join(hist)
     meta = {"property": prop, "source": "independent sub-agent given only the property record and a scratch worktree",
             "summary": rt.get("summary"), "breaks_clause": rt.get("breaks_clause"), "needs_to_manifest": rt.get("needs_to_manifest"),
